@@ -51,7 +51,7 @@ PROFILES = {
                 n_ops=(2, 5, 10, 20, 40), p_maintainer=0.8, fail_down_bias=0.3),
     'c14': dict(p_fanin=0.9, n_sources=(2, 2, 3), n_ops=(0, 2, 5, 10), p_rq=0.6, p_split=0.0, p_trace=0.0,
                 fault_kinds=('fail', 'shutdown', 'restore', 'wo', 'addres', 'block', 'adjust', 'offset', 'ct', 'wake')),
-    'c15': dict(p_trace=0.25, p_maintainer=0.7),
+    'c15': dict(p_trace=0.3, p_maintainer=0.7, p_split=0.5, p_empty_batch=0.25, p_batch_source=0.35),
     'c16': dict(p_maintainer=0.8, p_batch_source=0.4,
                 fault_kinds=('fail', 'shutdown', 'restore', 'wo', 'addres', 'block', 'adjust', 'rewire', 'offset', 'ct', 'wake',
                              'trywork', 'mkasset', 'mkasset')),
@@ -121,7 +121,7 @@ def _gen_spec(rng, profile_name, P):
     resources = {}
     if rng.random() < P['p_resources']:
         for i in range(rng.choice((1, 1, 2))):
-            resources[f'r{i}'] = rng.choice((0, 1, 1, 2, 3))
+            resources[f'r{i}'] = rng.choice((0, 1, 1, 2, 3)) if rng.random() > 0.04 else 2 ** 24
     maint = None
     if rng.random() < P['p_maintainer']:
         maint = {'cap': rng.choice((0.5, 1, 1, 2, 3, None))}
@@ -133,14 +133,16 @@ def _gen_spec(rng, profile_name, P):
             d['res'] = {r: rng.choice((1, 1, 2)) for r in rs}
             if rng.random() < 0.1:
                 d['res'][rng.choice(sorted(resources))] = 0
+            if rng.random() < 0.06:
+                d['res']['r_undeclared'] = 0      # amount 0 of a resource nobody ever added: must be ignored
         if rng.random() < 0.5:
             d['addv'] = rng.choice((0.5, 1, 2))
         if rng.random() < P['p_rq']:
             d['rq'] = True
         if P['callbacks'] and rng.random() < 0.25:
             d['ctcb'] = [rng.choice(CT) for _ in range(rng.randint(2, 3))]
-        d['wo'] = {'a': [rng.choice((0, 0.25, 0.5, 1, 2)), rng.choice((0, 0.5, 1, 1, 2)), rng.choice((0, 1, 3))],
-                   'b': [rng.choice((0, 0.5, 1.5, 3)), rng.choice((0, 1, 2, 4)), rng.choice((0, 2))]}
+        d['wo'] = {'a': [rng.choice((0, 0.25, 0.5, 1, 2)), rng.choice((0, 0.5, 1, 1, 2)), rng.choice((0, 1, 3, -2))],
+                   'b': [rng.choice((0, 0.5, 1.5, 3)), rng.choice((0, 1, 2, 4)), rng.choice((0, 2, -0.5))]}
         if in_group:
             d['in'] = in_group
         return d
@@ -186,6 +188,17 @@ def _gen_spec(rng, profile_name, P):
             members.append(add(d))
             prev = mname
         gd = {'k': 'group', 'n': gname, 'members': members}
+        if not parallel and inner_pos != 0 and rng.random() < P.get('p_fed_group', 0.15):
+            # the entry device is given only as input_override (it is not in the devices list)
+            fname = f'{gname}f'
+            fd = mk_handler(fname, [], gname) if rng.random() < 0.5 else mk_proc(fname, [], gname)
+            # it feeds the first listed device
+            first = next(x for x in devices if x['n'] == members[0])
+            first['up'] = [fname]
+            devices.insert(devices.index(first), fd)
+            names.add(fname)
+            gd['inputs'] = [fname]
+            gd['extra'] = [fname]
         if parallel:
             # a bank of parallel machines: every member is both an input and an output device of the group
             gd['inputs'] = list(members)
@@ -210,6 +223,7 @@ def _gen_spec(rng, profile_name, P):
             if rng.random() < 0.3:
                 sizes.append(-1)    # -1 = a single part in a stream of batches
             gen['sizes'] = sizes
+            gen['subclass'] = rng.random() < 0.4
         layer.append(add({'k': 'source', 'n': f'S{s}', 'ct': ct, 'parts': parts, 'gen': gen}))
 
     # ---- layers ------------------------------------------------------------
@@ -316,6 +330,15 @@ def _gen_spec(rng, profile_name, P):
         timed = [d['n'] for d in devices if d['k'] in ('handler', 'proc', 'source', 'sink')]
         spec['pre'] = [{'op': 'offset', 'dev': rng.choice(timed), 'v': rng.choice((-1, -0.5, 0.25, 0.5, 1, 2))}
                        for _ in range(rng.choice((1, 1, 2)))]
+    if 'adjust' in P['fault_kinds'] and rng.random() < 0.15:
+        # the budget is adjusted after construction but before the first simulate() call
+        fin = [d for d in devices if d['k'] == 'source' and d['parts'] is not None]
+        if fin:
+            d = rng.choice(fin)
+            spec.setdefault('pre', []).append({'op': 'adjust', 'dev': d['n'], 'v': rng.choice((-2, -1, -1, 1, 3))})
+    if len(plan) > 1 and rng.random() < 0.5:
+        # public calls made between two simulate() calls (not from inside an event)
+        spec['between'] = gen_between(rng, spec, P, len(plan) - 1)
     if 'adjust' in P['fault_kinds'] or 'offset' in P['fault_kinds']:
         # restock a source around the moment its budget runs out (while its next cycle may still be running)
         for d in devices:
@@ -332,8 +355,45 @@ def _gen_spec(rng, profile_name, P):
                             'starve_dev': rng.choice(cands)}
     spec['id_offset'] = rng.choice((0, 0, 7, 1000, 123456))
     if rng.random() < P['p_trace']:
-        spec['trace'] = True
+        # tracing can be switched on and off between simulate() calls
+        spec['trace'] = True if len(spec['plan']) == 1 or rng.random() < 0.4 else [rng.random() < 0.6 for _ in spec['plan']]
+        if isinstance(spec['trace'], list) and not any(spec['trace']):
+            spec['trace'][0] = True
     return spec
+
+
+def gen_between(rng, spec, P, n_gaps):
+    devs = spec['devices']
+    procs = [d['n'] for d in devs if d['k'] == 'proc']
+    sources = [d['n'] for d in devs if d['k'] == 'source' and d['parts'] is not None]
+    blockable = [d['n'] for d in devs if d['k'] in ('handler', 'proc', 'buffer', 'batcher', 'gate', 'path', 'sink')]
+    out = []
+    for gap in range(n_gaps):
+        for _ in range(rng.choice((1, 1, 2, 3))):
+            k = rng.choice([x for x in ('adjust', 'addres', 'block', 'restore', 'shutdown', 'wake', 'offset')
+                            if x in P['fault_kinds']] or ['wake'])
+            op = {'gap': gap, 'op': k}
+            if k == 'adjust':
+                if not sources:
+                    continue
+                op.update(dev=rng.choice(sources), v=rng.choice((1, 2, 3, -1)))
+            elif k == 'addres':
+                if not spec['resources']:
+                    continue
+                op.update(res=rng.choice(sorted(spec['resources'])), amt=rng.choice((1, 2, 3, -1)))
+            elif k == 'block':
+                op.update(dev=rng.choice(blockable), v=rng.random() < 0.3)
+            elif k in ('restore', 'shutdown'):
+                if not procs:
+                    continue
+                op.update(dev=rng.choice(procs))
+            elif k == 'wake':
+                op.update(dev=rng.choice(blockable[:-1] or blockable))
+            elif k == 'offset':
+                op.update(dev=rng.choice([d['n'] for d in devs if d['k'] in ('handler', 'proc', 'source', 'sink')]),
+                          v=rng.choice((-1, 0.5, 1)))
+            out.append(op)
+    return out
 
 
 def top_level(spec):
